@@ -28,7 +28,7 @@ import pipegen
 import terms
 
 PID = "C13"
-PROPS = ["PfModel.Props.C13"]
+PROPS = ["PfModel.Props.C13", "PfModel.Props.C13Async", "PfModel.Props.C13Store", "PfModel.Props.C13Kinds"]
 DRIVER = "C13"
 RULE = ("mapgen pipelines (1-4 functions, mapped / reducing / internal-axis / generator / plain, 1-3 generations) and pipegen DAGs "
         "(1-5 functions, tuple outputs, renames, defaults, bound); for every invocation of the failure-free run (function, call "
@@ -43,8 +43,12 @@ ASSUMPTIONS = ["exception pickling across processes, cloudpickle of ErrorSnapsho
                "the order of functions inside one generation is taken from the implementation (networkx) and given to the model",
                "the model's store after a failure describes file-based storage (cells written by the worker); in-memory storage is "
                "only persisted by a successful run, so the 'loadable' clause is checked with storage='file_array'",
-               "with several raising invocations map_async may surface any of those of the first raising function (asyncio.gather); "
-               "the model's submission-order rule is compared for the synchronous paths only",
+               "with several raising invocations map_async surfaces one of the candidates of C13_async_surface (raising invocations of the first "
+               "function of the generation that has one); which one depends on the loop order, a free parameter of the model",
+               "kinds outside the text (BaseException-only classes, unpicklable args, a raising output_picker, the parent's snapshot after a "
+               "process pool) are modelled / counted as `outside-text:*`, never a violation of the property",
+               "the re-run after a failure (C13_resume_completes) is compared for file_array storage and sequential re-runs; pipelines using "
+               "PipeFunc.internal_shape are skipped (DF-30, C06)",
                "a pool schedule is fair: every submitted task eventually runs (hypothesis of C13_surface / C13_no_hang)"]
 
 IN_PROCESS = ("seq", "thread", "thread1", "async")
@@ -72,12 +76,15 @@ def obs_exn_pair(e):
 
 
 def is_scalar(v):
-    return isinstance(v, int) or (isinstance(v, dict) and any(k in v for k in ("s", "f", "pick", "proj")))
+    return v is None or isinstance(v, int) or (isinstance(v, dict) and any(k in v for k in ("s", "f", "pick", "proj")))
 
 
 def note_fragments(fname, note_kw):
+    """Ordered substrings the note must contain.  The model's values are free terms: `terms.canon` maps them to their image
+    under the interpretation of the constant functions (`f_none(...)` is `None`, ...) before they are printed."""
     frags = [f"`{fname}("]
     for k, v in note_kw:
+        v = terms.canon(v)
         frags.append(f"{k}=" + (repr(terms.dec(v)) if is_scalar(v) else ""))
         if not is_scalar(v) and isinstance(v, dict) and "arr" in v:
             # an array argument: the note must show the array that was passed (the repr of its elements, in order), not the
@@ -102,14 +109,20 @@ def contains_in_order(text, frags):
 
 
 def strip_models(inj):
-    j = {k: v for k, v in inj.items() if k not in ("model", "then")}
+    j = {k: v for k, v in inj.items() if k != "then" and not k.startswith("model")}
     if inj.get("then"):
         j["then"] = strip_models(inj["then"])
     return j
 
 
-def all_masked(v):
-    return v is None or v == "M" or (isinstance(v, dict) and "arr" in v and all(all_masked(x) for x in v["arr"][1]))
+def all_masked(v, top=True):
+    """nothing loadable: a masked element / an all-masked array / a load error / `None` for a whole output (`load_outputs` of an
+    output that was never stored returns `None`).  Inside an array `None` is a VALUE (an interpreted constant), not "missing"."""
+    if isinstance(v, dict) and "err" in v:
+        return True
+    if v is None:
+        return top
+    return v == "M" or (isinstance(v, dict) and "arr" in v and all(all_masked(x, False) for x in v["arr"][1]))
 
 
 # ------------------------------------------------------------------------------------------------ workers
@@ -200,10 +213,10 @@ def order_by_generations(desc):
     return d, gens
 
 
-def map_request(mdesc, fail, mode):
+def map_request(mdesc, fail, mode, extra=()):
     a = mapgen.model_request(mdesc)
-    a["fail"] = fail
-    a["mode"] = "seq" if mode == "seq" else "pool"
+    a["fail"] = list(fail) + list(extra)
+    a["mode"] = "seq" if mode == "seq" else "async" if mode == "async" else "pool"
     return {"m": "map.fail", "a": a}
 
 
@@ -215,6 +228,20 @@ def make_target(name, kw, kind, tag):
     """(worker target, model oracle entry) for one raising invocation; kw None = every invocation of the function."""
     return ([name, None if kw is None else kw_key(kw), kind, tag],
             {"f": name, "kw": kw, "exn": c13_exc.model_exn(kind, tag)})
+
+
+def colliding(calls, step):
+    """Under the interpretation of constant functions two invocations that are different free terms may receive the same
+    values (`f1(y=f0_false(x[0]))` and `f1(y=f0_false(x[1]))` both get `y=False`): the implementation's hook (which sees values)
+    then raises for both.  The oracle handed to the model raises the same exception for every such invocation."""
+    extra = []
+    for t, m in zip(step["targets"], step["fail"]):
+        if t[1] is None:
+            continue
+        for n, kw in calls:
+            if n == t[0] and kw != m["kw"] and kw_key(kw) == t[1]:
+                extra.append({"f": n, "kw": kw, "exn": m["exn"]})
+    return extra
 
 
 def plan_map(ctx, rng, mdesc, calls, modes, k0):
@@ -247,6 +274,38 @@ def plan_map(ctx, rng, mdesc, calls, modes, k0):
         mode = rng.choice(["seq", "thread"])
         injs.append({"what": "rerun", "targets": [ta], "fail": [ma], "mode": mode, "storage": "file_array", "index": a,
                      "then": {"what": "rerun2", "targets": [tb], "fail": [mb], "mode": mode, "storage": "file_array", "index": b}})
+    # ---- map_async, two raising invocations of the SAME function (asyncio.gather: either may surface, `C13_async_surface`)
+    byf = collections.defaultdict(list)
+    for i, (name, kw) in enumerate(calls):
+        byf[name].append(i)
+    multi_f = [ix for ix in byf.values() if len(ix) >= 2]
+    if multi_f:
+        pick = sorted(rng.sample(rng.choice(multi_f), 2))
+        kinds = rng.sample(c13_exc.KINDS, 2)
+        ts, ms = zip(*[make_target(calls[i][0], calls[i][1], kd, 250 + i) for i, kd in zip(pick, kinds)])
+        injs.append({"what": "multi", "targets": list(ts), "fail": list(ms), "mode": "async", "storage": "file_array", "index": pick})
+    # ---- kinds OUTSIDE the property's quantifier: a BaseException-only class, an exception with unpicklable args
+    if calls:
+        i = rng.randrange(n)
+        kind = rng.choice(c13_exc.OUTSIDE_KINDS)
+        mode = rng.choice(["seq", "thread", "async", "thread1"] + (["process"] if ctx.tier != "quick" or rng.random() < 0.3 else []))
+        t, m = make_target(calls[i][0], calls[i][1], kind, 900 + i)
+        injs.append({"what": "outside", "targets": [t], "fail": [m], "mode": mode, "storage": "file_array", "index": i})
+    # ---- a raising `output_picker` (user code, but not the wrapped function: outside the text, behaviour counted)
+    tuples = [f["name"] for f in mdesc["funcs"] if len(f["outputs"]) > 1 and any(c[0] == f["name"] for c in calls)]
+    if tuples and rng.random() < 0.7:
+        injs.append({"what": "picker", "targets": [], "fail": [], "picker": [[rng.choice(tuples), rng.choice(["value", "custom", "quiet"]), 950]],
+                     "mode": rng.choice(["seq", "thread", "async", "process"]), "storage": "file_array", "index": -2})
+    # ---- which runs are followed by a re-run on the folder they left (`C13_resume_completes`); `PipeFunc.internal_shape`
+    #      refuses every resume (DF-30, owned by C06)
+    resumable = not any(f.get("internal") for f in mdesc["funcs"])
+    for inj in injs:
+        if inj["what"] in ("single", "multi") and inj["storage"] == "file_array" and inj["mode"] in ("seq", "thread", "thread1", "async"):
+            if resumable:
+                if ctx.tier != "quick" or rng.random() < 0.5:
+                    inj["resume"] = True
+            else:
+                ctx.count("resume:skipped(internal_shape, DF-30)")
     if calls and rng.random() < 0.5:
         t, m = make_target(calls[0][0], [["zz", {"s": "no such argument"}]], "value", 999)
         injs.append({"what": "nomatch", "targets": [t], "fail": [m], "mode": rng.choice(["seq", "thread"]), "storage": "file_array", "index": -1})
@@ -257,11 +316,21 @@ def plan_call(ctx, rng, desc, out, kw, calls):
     injs = []
     for i, name in enumerate(calls):
         kind = c13_exc.KINDS[(i + len(calls)) % len(c13_exc.KINDS)]
-        entry = rng.choice(["call", "call", "run", "full", "func"]) if isinstance(out, str) else "call"
+        entry = rng.choice(["call", "call", "run", "full", "func", "scope", "scope", "nested", "nested_rest", "nested_rest"]) if isinstance(out, str) else "call"
         if entry == "func" and any(k in pipegen.all_outputs(desc) for k, _ in kw):
             entry = "call"
         t, m = make_target(name, None, kind, 500 + i)
-        injs.append({"what": "single", "targets": [t], "fail": [m], "out": out, "kw": kw, "entry": entry, "mode": "call", "index": i})
+        inj = {"what": "single", "targets": [t], "fail": [m], "out": out, "kw": kw, "entry": entry, "mode": "call", "index": i}
+        if entry == "nested":
+            inj["nest_out"] = [o for f in desc["funcs"] for o in f["outputs"]]
+        if entry == "nested_rest":
+            inj["nest_out"] = [o for f in desc["funcs"] if f["name"] != name for o in f["outputs"]]
+        injs.append(inj)
+    if calls:
+        i = rng.randrange(len(calls))
+        t, m = make_target(calls[i], None, rng.choice(c13_exc.OUTSIDE_KINDS), 550 + i)
+        injs.append({"what": "outside", "targets": [t], "fail": [m], "out": out, "kw": kw, "entry": "call", "mode": "call", "index": i})
+
     if len(calls) >= 2:
         a, b = rng.sample(range(len(calls)), 2)
         ta, ma = make_target(calls[a], None, rng.choice(c13_exc.KINDS), 600 + a)
@@ -274,16 +343,89 @@ def plan_call(ctx, rng, desc, out, kw, calls):
 
 
 # ------------------------------------------------------------------------------------------------ judging
+def judge_picker(ctx, case, step, o, M):
+    """A raising `output_picker`: user code that is not the wrapped function, so the property's text does not cover it.  What is
+    checked all the same: the exception reaches the caller with its type and args, the call returns, nothing of a later
+    generation runs.  Whether it is annotated / snapshotted is counted."""
+    mode = step["mode"]
+    fname, kd, tg = step["picker"][0]
+    ctx.count(f"outside-text:picker:{mode}")
+    ctx.record(case, True)
+    if o["outcome"] == "hang" or o.get("drain_hang"):
+        ctx.violation(case, f"the call did not return within {c13_worker.SOFT_TIMEOUT:.0f}s after an output_picker raised (mode {mode})", impl=o)
+        return
+    if o["outcome"] == "returned":
+        ctx.violation(case, f"no exception reached the caller although the output_picker of `{fname}` raised (mode {mode})", impl={"calls": o["calls"]})
+        return
+    want = exn_pair(c13_exc.model_exn(kd, tg))
+    if obs_exn_pair(o["exc"]) != want:
+        ctx.violation(case, f"the exception at the caller is {o['exc']['cls']}{tuple(o['exc']['args'])!r}, not the exception the output_picker raised "
+                      f"({want[0]}) (mode {mode})", impl=o["exc"])
+        return
+    gen_of = {n: gi for gi, g in enumerate(o.get("gens", [])) for n in g}
+    later = sorted({c[0] for c in o["calls"] if gen_of.get(c[0], 0) > gen_of.get(fname, 0)})
+    if later:
+        ctx.violation(case, f"functions of a later generation were invoked after the output_picker of `{fname}` raised: {later} (mode {mode})",
+                      impl={"calls": [c[0] for c in o["calls"]], "gens": o.get("gens")})
+        return
+    ctx.count("outside-text:picker:" + ("annotated" if any("Error occurred while executing" in n for n in o["exc"]["notes"]) else "not-annotated"))
+    ctx.count("outside-text:picker:" + ("snapshot" if o.get("snap_pipeline") else "no-snapshot"))
+
+
+def judge_resume(ctx, case, step, o, M, mode, store_agrees=True):
+    """`C13_resume_completes` on the real code: the re-run (`cleanup=False`, nothing raises) on the folder the failed run left."""
+    R, r = M.get("resume"), o.get("resume")
+    if r is None or R is None:
+        return True
+    ctx.count("clause:resume-after-failure")
+    if R.get("outputs") is None:
+        raise AssertionError(f"driver: the model's resumed run does not complete (C13_resume_completes): {json.dumps(case)[:500]}")
+    if r["outcome"] != "returned":
+        ctx.violation(case, f"the results stored before the failure are not usable: re-running the map on the run folder (cleanup=False, no failure) "
+                      f"ends with {r['outcome']} {(r.get('exc') or {}).get('cls', '')}{tuple((r.get('exc') or {}).get('args', []))!r} (failing run: mode {mode})", impl=r)
+        return False
+    full = {k: terms.canon(v) for k, v in step["model_full"]}
+    bad = sorted(k for k, v in r["loaded"].items() if k in full and v != full[k])
+    if bad:
+        ctx.violation(case, f"after the failure and a re-run on the same folder {bad} do not load as the values of the failure-free run: an element "
+                      f"stored by the failed run is wrong (failing run: mode {mode})", impl={k: r["loaded"][k] for k in bad}, model={k: full[k] for k in bad})
+        return False
+    got = sorted(json.dumps(c, sort_keys=True) for c in r["calls"])
+    want = sorted(json.dumps([n, canon_kw(kw)], sort_keys=True) for n, kw in R["calls"])
+    if not store_agrees:
+        return True              # the stores differ already: the caller reports that
+    if got != want:
+        stored_again = [c for c in got if c not in want]
+        ctx.violation(case, "the re-run after the failure " + ("invokes user functions for elements the model holds as stored" if stored_again else
+                      "does not invoke everything the model holds as missing") + f" (failing run: mode {mode})", found_input=False,
+                      item="correspondence:C13_resume_completes(calls)", impl={"calls": r["calls"]}, model={"calls": R["calls"]})
+        return False
+    ctx.count("resume:calls=" + ("0" if not got else "some"))
+    return True
+
+
 def judge_step(ctx, case, kind, step, o, M):
     """One failing run: the implementation's observation `o` against the property clauses and the model's answer `M`."""
     mode = step["mode"]
     what = step["what"]
     targets = step["targets"]
+    entry = step.get("entry", "")
     tag = f"{kind}:{mode}"
     ctx.count(f"run:{tag}")
     ctx.count(f"inject:{what}")
+    if entry:
+        ctx.count(f"entry:{entry}")
     for t in targets:
         ctx.count(f"exception:{t[2]}")
+    if "err" in M:
+        raise AssertionError(f"model refuses a generated case: {M} {json.dumps(case)[:600]}")
+    if what == "picker":
+        judge_picker(ctx, case, step, o, M)
+        return
+    if o.get("outcome") == "variant_err":        # scope / nesting not applicable to this pipeline (e.g. several leaves)
+        ctx.count(f"variant-not-applicable:{entry}")
+        ctx.skip(f"{entry}: {o.get('msg', '')[:60]}")
+        return
     if kind == "map" and what == "single":
         f = next(g for g in case["desc"]["funcs"] if g["name"] == targets[0][0])
         ctx.count("failing-func:" + ("mapped" if f["mapspec"] and f["mapspec"]["inputs"] else "generator" if f["mapspec"] else "plain")
@@ -291,8 +433,6 @@ def judge_step(ctx, case, kind, step, o, M):
         if "gen" in M:
             ctx.count(f"failing-generation:{min(M['gen'], 2)}{'+' if M['gen'] >= 2 else ''}")
             ctx.count("failing-call:" + ("first-of-run" if len(M["log"]) == 1 and mode == "seq" else "later"))
-    if "err" in M:
-        raise AssertionError(f"model refuses a generated case: {M} {json.dumps(case)[:600]}")
     if what == "nomatch":
         if "raised" in M or "hang" in M:
             raise AssertionError(f"model fails although nothing matches: {json.dumps(case)[:600]}")
@@ -310,6 +450,8 @@ def judge_step(ctx, case, kind, step, o, M):
         raise AssertionError(f"model does not raise for a generated injection: {json.dumps(M)[:300]} {json.dumps(case)[:600]}")
     mlog = [[n, canon_kw(kw)] for n, kw in (M["log"] if kind == "map" else M["calls"])]
     ctx.record(case, len(mlog) > 1)
+    outside = [t[2] for t in targets if t[2] in c13_exc.OUTSIDE_KINDS]
+    annotated = M.get("annotated", True)          # False: a BaseException-only class (`surface`, C13_kinds)
     # ---- the call returns
     if o["outcome"] == "hang":
         ctx.violation(case, f"the call did not return within {c13_worker.SOFT_TIMEOUT:.0f}s after a user function raised (mode {mode})", impl=o)
@@ -324,32 +466,68 @@ def judge_step(ctx, case, kind, step, o, M):
     exc = o["exc"]
     got = obs_exn_pair(exc)
     injected = {exn_pair(m["exn"]): (t, m) for t, m in zip(targets, step["fail"])}
+    lost = False
     if got not in injected:
-        ctx.violation(case, f"the exception at the caller is {exc['cls']}{tuple(exc['args'])!r}, not the exception the user function raised "
-                      f"({', '.join(c for c, _ in injected)}) (mode {mode})", impl=exc, model=M["exn"])
-        return
-    surf_t, surf_m = injected[got]
-    exact = not (mode == "async" and len(targets) > 1)
+        if "unpicklable" in outside and mode in ("process", "process_default"):
+            # outside the text ("custom picklable classes"): the worker cannot pickle the exception, the pool reports that instead
+            ctx.count("outside-text:unpicklable-args-across-processes:" + exc["cls"])
+            lost = True
+        else:
+            ctx.violation(case, f"the exception at the caller is {exc['cls']}{tuple(exc['args'])!r}, not the exception the user function raised "
+                          f"({', '.join(c for c, _ in injected)}) (mode {mode})", impl=exc, model=M["exn"])
+            return
+    surf_t, surf_m = (targets[0], step["fail"][0]) if lost else injected[got]
+    # with several raising invocations `map_async` surfaces one of the candidates of `C13_async_surface`
+    gather = mode == "async" and len(targets) > 1
+    exact = not gather and not lost
     if exact and got != exn_pair(M["exn"]):
         ctx.violation(case, f"with several raising invocations the exception {exc['cls']}{tuple(exc['args'])!r} of `{surf_t[0]}` surfaced; the first raising "
                       f"invocation in submission order is `{M['noteFunc']}` with {M['exn']['cls']}{tuple(M['exn']['args'])!r} (mode {mode})", found_input=False, item="correspondence:C13_surface(submission order)", impl=exc, model=M["exn"])
         return
-    if kind == "map" and M.get("spec") is not None and exn_pair(M["spec"]["exn"]) != exn_pair(M["exn"]):
+    if kind == "map" and mode != "async" and M.get("spec") is not None and exn_pair(M["spec"]["exn"]) != exn_pair(M["exn"]):
         raise AssertionError("driver: runMapE and specGens disagree (C13_surface)")
+    surfaced = M                                   # the model's description of the invocation whose exception surfaced
+    if gather:
+        cands = (M.get("candidates") or {}).get("of") or []
+        if not cands or exn_pair(cands[0]["exn"]) != exn_pair(M["spec"]["exn"]):
+            raise AssertionError("driver: the head of the async candidates is not the synchronous answer (C13_async_candidates_head)")
+        ctx.count(f"async-candidates:{min(len(cands), 3)}")
+        hit = [c for c in cands if exn_pair(c["exn"]) == got]
+        if not hit:
+            ctx.violation(case, f"map_async surfaced the exception {exc['cls']}{tuple(exc['args'])!r} of `{surf_t[0]}`, which is not a raising invocation of the first "
+                          f"function of the generation that has one (`{cands[0]['noteFunc']}`; asyncio.gather per function, in generation order)", found_input=False,
+                          item="correspondence:C13_async_surface(candidates)", impl=exc, model=[c["exn"] for c in cands])
+            return
+        surfaced = hit[0]
+        ctx.count("async-surfaced:" + ("first-in-submission-order" if hit[0] is cands[0] else "another-candidate"))
     # ---- annotated with the function and the keyword arguments of the failing invocation
-    notes = [n for n in exc["notes"] if "Error occurred while executing function" in n]
-    if exact:
-        frags = note_fragments(M["noteFunc"], M["noteKw"])
+    pf_notes = [n for n in exc["notes"] if "Error occurred while executing function" in n]
+    if lost:
+        pass
+    elif not annotated:
+        # a BaseException-only class: outside the text; the model (`except Exception`) says neither note nor snapshot
+        ctx.count("outside-text:base-exception:" + mode)
+        if pf_notes or o.get("snap_pipeline") is not None:
+            ctx.violation(case, f"a BaseException-only class is annotated / snapshotted although `except Exception` does not see it (mode {mode})",
+                          found_input=False, item="correspondence:C13_kinds(base exception)", impl={"notes": exc["notes"], "snap": o.get("snap_pipeline")})
+            return
     else:
-        frags = [f"`{surf_t[0]}("]
-    if not any(contains_in_order(n, frags) for n in notes):
-        ctx.violation(case, f"the exception is not annotated with the failing function and the keyword arguments of the failing invocation "
-                      f"(expected {' … '.join(frags)[:160]}) (mode {mode})", impl={"notes": exc["notes"]}, model={"noteFunc": M["noteFunc"], "noteKw": M["noteKw"]})
-        return
-    if len(exc["notes"]) != 1:
-        ctx.violation(case, f"{len(exc['notes'])} notes on the exception, the model adds exactly one", found_input=False,
-                      item="correspondence:note-count", impl={"notes": exc["notes"]})
-        return
+        note_kw = surfaced["noteKw"]
+        if entry == "scope":      # `update_scope("s", inputs="*", outputs="*")` renames everything but bound parameters
+            fdesc = next(g for g in case["desc"]["funcs"] if g["name"] == surfaced["noteFunc"])
+            bound = {k for k, _ in fdesc.get("bound", [])}
+            note_kw = [[k if k in bound else "s." + k, v] for k, v in note_kw]
+        frags = note_fragments(surfaced["noteFunc"], note_kw)
+        if not any(contains_in_order(n, frags) for n in pf_notes):
+            ctx.violation(case, f"the exception is not annotated with the failing function and the keyword arguments of the failing invocation "
+                          f"(expected {' … '.join(frags)[:160]}) (mode {mode}{', ' + entry if entry else ''})", impl={"notes": exc["notes"]},
+                          model={"noteFunc": surfaced["noteFunc"], "noteKw": note_kw})
+            return
+        want_notes = 2 if entry == "nested" else 1      # a NestedPipeFunc is itself a function of the outer pipeline: its own note follows
+        if len(exc["notes"]) != want_notes:
+            ctx.violation(case, f"{len(exc['notes'])} notes on the exception, the model adds exactly {want_notes}", found_input=False,
+                          item="correspondence:note-count", impl={"notes": exc["notes"]})
+            return
     # ---- no function of a later generation
     calls = o["calls"]
     if kind == "map":
@@ -362,7 +540,13 @@ def judge_step(ctx, case, kind, step, o, M):
             return
         if M["gens"] != o["gens"]:
             raise AssertionError(f"generation order given to the model differs: {M['gens']} vs {o['gens']}")
-    if mode in ("seq", "call"):
+    if entry in ("nested", "nested_rest"):
+        # the nested pipeline evaluates all its outputs in its own order: only "nothing ran after the failure" is compared
+        ctx.count("nested:call-log-not-compared")
+        if calls and calls[-1][0] != surf_t[0]:
+            ctx.violation(case, f"a function ran after `{surf_t[0]}` raised (pipeline with a NestedPipeFunc): {[c[0] for c in calls]}", impl={"calls": calls})
+            return
+    elif mode in ("seq", "call"):
         if calls != mlog:
             ctx.violation(case, f"the call log of the failing run differs from the model (something ran after the failure, or before it did not) (mode {mode})",
                           found_input=False, item="correspondence:call-log", impl={"calls": calls}, model={"log": mlog})
@@ -374,23 +558,30 @@ def judge_step(ctx, case, kind, step, o, M):
             ctx.violation(case, f"the invocations of the failing run differ from the model (every task of the failing generation, nothing later) (mode {mode})",
                           found_input=False, item="correspondence:call-log", impl={"calls": calls}, model={"log": mlog})
             return
+    if lost:
+        return
     # ---- ErrorSnapshot (in-process execution)
-    if mode in IN_PROCESS or mode == "call":
+    if (mode in IN_PROCESS or mode == "call") and annotated:
         if "snap_err" in o:
             ctx.violation(case, f"reading error_snapshot failed: {o['snap_err']}", impl=o)
             return
         single = len(targets) == 1 or mode in ("seq", "call")
         want_snap = {"fname": M["snap"]["fname"], "kwargs": canon_kw(M["snap"]["kwargs"])}
         allowed = [{"fname": t[0], "kw_key": t[1], "exn": exn_pair(m["exn"])} for t, m in zip(targets, step["fail"])]
-        for label, sp in (("pipeline.error_snapshot", o.get("snap_pipeline")), (f"{surf_t[0]}.error_snapshot", (o.get("snap_func") or {}).get(surf_t[0]))):
+        labels = [("pipeline.error_snapshot", o.get("snap_pipeline"))]
+        if entry != "nested":        # the functions of the outer pipeline are the NestedPipeFunc only
+            labels.append((f"{surf_t[0]}.error_snapshot", (o.get("snap_func") or {}).get(surf_t[0])))
+        for label, sp in labels:
             if sp is None:
-                ctx.violation(case, f"{label} is None after the failure (mode {mode})", impl={"snap_func": sorted(o.get('snap_func') or {})})
+                ctx.violation(case, f"{label} is None after the failure (mode {mode}{', ' + entry if entry else ''})", impl={"snap_func": sorted(o.get('snap_func') or {})})
                 return
             if "err" in sp:
                 ctx.violation(case, f"{label} cannot be inspected: {sp['err']}", impl=sp)
                 return
             sp_exn = obs_exn_pair(sp["exc"])
-            if single:
+            if entry == "nested":
+                ok = sp_exn == exn_pair(M["exn"])            # function and kwargs are those of the NestedPipeFunc
+            elif single:
                 ok = sp["fname"] == want_snap["fname"] and sp["kwargs"] == want_snap["kwargs"] and sp_exn == exn_pair(M["exn"])
             else:
                 ok = any(sp["fname"] == a["fname"] and sp_exn == a["exn"] and (a["kw_key"] is None or a["kw_key"] == json.dumps(sp["kwargs"], sort_keys=True))
@@ -399,18 +590,43 @@ def judge_step(ctx, case, kind, step, o, M):
                 ctx.violation(case, f"{label} does not hold the failing function, its exception and the keyword arguments of the failing invocation "
                               f"(holds {sp['fname']} {sp['exc']['cls']}) (mode {mode}, step {what})", impl=sp, model=M["snap"])
                 return
-            for where, rep in (("reproduce()", sp.get("reproduce")), ("reproduce() after save_to_file/load_from_file", (sp.get("reloaded") or {}).get("reproduce"))):
+            checks = [("reproduce()", sp.get("reproduce")), ("reproduce() after save_to_file/load_from_file", (sp.get("reloaded") or {}).get("reproduce"))]
+            if "unpicklable" in outside:
+                # outside the text ("custom picklable classes"): cloudpickle cannot save the exception's args
+                ctx.count("outside-text:unpicklable-args:save_to_file-" + ("fails" if "err" in (sp.get("reloaded") or {}) else "works"))
+                checks = checks[:1]
+            for where, rep in checks:
                 if not isinstance(rep, dict) or obs_exn_pair(rep) != sp_exn:
                     ctx.violation(case, f"{label}.{where} does not raise the same exception (got {rep if not isinstance(rep, dict) else rep.get('cls')}; "
                                   f"{(sp.get('reloaded') or {}).get('err', '')}) (mode {mode})", impl=sp, model=M["exn"])
                     return
             rl = sp.get("reloaded") or {}
-            if rl.get("fname") != sp["fname"] or rl.get("kwargs") != sp["kwargs"]:
+            if "unpicklable" not in outside and (rl.get("fname") != sp["fname"] or rl.get("kwargs") != sp["kwargs"]):
                 ctx.violation(case, f"{label} changes through save_to_file/load_from_file", impl=sp)
                 return
-        if single and M.get("pipelineSnap") and canon_kw(M["pipelineSnap"]["kwargs"]) != want_snap["kwargs"]:
+        if single and entry != "nested" and M.get("pipelineSnap") and canon_kw(M["pipelineSnap"]["kwargs"]) != want_snap["kwargs"]:
             raise AssertionError("driver: pipelineSnapshot differs from the raised snapshot in a single-failure run")
+        # ---- … also in a fresh interpreter: nothing of the failing process survives but the file
+        fr = o.get("fresh")
+        if fr is not None:
+            ctx.count("clause:snapshot-fresh-interpreter")
+            sp = o["snap_pipeline"]
+            if "err" in fr or not isinstance(fr.get("reproduce"), dict) or obs_exn_pair(fr["reproduce"]) != obs_exn_pair(sp["exc"]) \
+                    or fr.get("fname") != sp["fname"] or fr.get("kwargs") != sp["kwargs"]:
+                ctx.violation(case, f"pipeline.error_snapshot saved with save_to_file and loaded with load_from_file in a fresh interpreter does not "
+                              f"reproduce the same exception ({fr.get('err') or fr.get('reproduce')}) (mode {mode})", impl=fr, model=M["exn"])
+                return
         ctx.count("clause:snapshot")
+    elif mode in ("process", "process_default") and annotated:
+        # the snapshot lives in the worker process; the text promises one for in-process execution only.  What the parent
+        # exposes is counted; a snapshot it does expose must be the right one.
+        sp = o.get("snap_pipeline")
+        ctx.count("outside-text:process-parent-snapshot:" + ("none" if sp is None else "present"))
+        if sp is not None and "err" not in sp and what in ("single", "multi", "outside"):
+            if obs_exn_pair(sp["exc"]) not in injected or not isinstance(sp.get("reproduce"), dict) or obs_exn_pair(sp["reproduce"]) != obs_exn_pair(sp["exc"]):
+                ctx.violation(case, f"after a failure in a process pool the parent exposes an ErrorSnapshot that does not reproduce the failure (holds {sp['fname']} {sp['exc']['cls']})",
+                              found_input=False, item="correspondence:process-parent-snapshot", impl=sp)
+                return
     # ---- completed results remain loadable
     if kind == "map" and o.get("loaded") is not None:
         want = {k: terms.canon(v) for k, v in M["stored"]}
@@ -418,6 +634,7 @@ def judge_step(ctx, case, kind, step, o, M):
         for f in case["desc"]["funcs"]:
             for out in f["outputs"]:
                 gen_of_out[out] = gen_of.get(f["name"], 0)
+        pending = None          # a model / implementation disagreement on the failing generation's store (not a clause of the text)
         for out, got_v in o["loaded"].items():
             earlier = gen_of_out.get(out, 0) < gfail
             if out in want:
@@ -425,15 +642,20 @@ def judge_step(ctx, case, kind, step, o, M):
                     if earlier:
                         ctx.violation(case, f"`{out}`, completed in a generation before the failure, does not load as the value the run computed (mode {mode})",
                                       impl={"loaded": got_v}, model={"stored": want[out]})
-                    else:
-                        ctx.violation(case, f"`{out}` of the failing generation loads differently from the model's store (mode {mode})", found_input=False,
-                                      item="correspondence:partial-store", impl={"loaded": got_v}, model={"stored": want[out]})
-                    return
+                        return
+                    pending = pending or (f"`{out}` of the failing generation loads differently from the model's store (mode {mode})",
+                                          {"loaded": got_v}, {"stored": want[out]})
             elif not all_masked(got_v):
-                ctx.violation(case, f"`{out}` loads although the model holds nothing for it (mode {mode})", found_input=False,
-                              item="correspondence:partial-store", impl={"loaded": got_v})
+                pending = pending or (f"`{out}` loads although the model holds nothing for it (mode {mode})", {"loaded": got_v}, None)
+        if pending is not None:
+            # search for a real failure first: is what the failed run stored usable (the re-run on the same folder)?
+            if not judge_resume(ctx, case, step, o, M, mode, store_agrees=False):
                 return
+            ctx.violation(case, pending[0], found_input=False, item="correspondence:partial-store", impl=pending[1], model=pending[2])
+            return
         ctx.count("clause:loadable")
+        if not judge_resume(ctx, case, step, o, M, mode):
+            return
     ctx.count(f"agree:{tag}")
 
 
@@ -469,6 +691,14 @@ CORPUS_CALL = [
                 {"name": "f1", "params": [["o0", "a0"]], "outputs": ["o1"], "defaults": [], "bound": []}]},
      "o1", [["r0", {"s": "kw:r0"}]], (0, 1)),
 ]
+# fixed regression (DF-C13-02): a pipeline containing a NestedPipeFunc that did not itself fail — `Pipeline.error_snapshot` raised
+# AttributeError (NestedPipeFunc never initialised `error_snapshot`) instead of exposing the snapshot of the function that failed
+CORPUS_CALL_INJ = [
+    ({"funcs": [{"name": "f0", "params": [["r0", "r0"]], "outputs": ["o0"], "defaults": [], "bound": []},
+                {"name": "f1", "params": [["o0", "o0"]], "outputs": ["o1"], "defaults": [], "bound": []},
+                {"name": "f2", "params": [["o1", "a0"]], "outputs": ["o2"], "defaults": [], "bound": []}]},
+     "o2", [["r0", {"s": "kw:r0"}]], 2, "nested_rest"),
+]
 CORPUS_MAP = [
     ({"funcs": [_mf("f0", [["x0", "x0"]], ["y0"], {"inputs": [["x0", ["i"]]], "outputs": [["y0", ["i"]]]}, "x0[i] -> y0[i]"),
                 _mf("f1", [["y0", "a0"]], ["y1"], {"inputs": [["y0", ["i"]]], "outputs": [["y1", ["i"]]]}, "y0[i] -> y1[i]")],
@@ -480,6 +710,11 @@ CORPUS_MAP = [
 def run(ctx):
     rng = ctx.rng
     base = tempfile.mkdtemp(prefix="verif-c13-")
+    # interpreted constant functions (`f_none`, `f_zero`, `f_false`, `f_empty`, see terms.py): policy "all" — the failure models never
+    # compare values, and notes / kwargs / stored cells are compared through `terms.canon`.  An explicit VERIF_CONST wins.
+    const_env = os.environ.get("VERIF_CONST")
+    if const_env is None:
+        os.environ["VERIF_CONST"] = "all"
     try:
         modes = MODE_CYCLE_QUICK if ctx.tier == "quick" else MODE_CYCLE_THOROUGH
         # ---- pipelines
@@ -490,6 +725,8 @@ def run(ctx):
             maps.append((mapgen.gen_case(rng, max_funcs=4), None))
         for desc, out, kw, rr in CORPUS_CALL:
             callsd.append((copy.deepcopy(desc), out, kw, rr))
+        for desc, out, kw, idx, entry in CORPUS_CALL_INJ:
+            callsd.append((copy.deepcopy(desc), out, kw, ("inj", idx, entry)))
         for _ in range(ctx.n(40, 400)):
             desc = pipegen.gen_dag(rng)
             try:
@@ -521,6 +758,7 @@ def run(ctx):
         # ---- injections
         jobs, reqs2, slots = [], [], []
         k = 0
+        fresh_left = ctx.n(12, 240)               # reproduce() after save/load in a FRESH interpreter (≈ 1 s each, in the workers)
         for (kind, d, rr), resp in zip(metas, outs):
             r = resp["r"]
             if kind == "map":
@@ -536,8 +774,16 @@ def run(ctx):
                                     "then": {"what": "rerun2", "targets": [tb], "fail": [mb], "mode": "seq", "storage": "file_array", "index": b}})
                 desc = d
                 for inj in injs:
+                    if inj.get("resume"):
+                        inj["model_full"] = r["stored"]
+                    if fresh_left > 0 and inj["what"] == "single" and inj["mode"] in IN_PROCESS and rng.random() < 0.2:
+                        inj["fresh"] = True
+                        fresh_left -= 1
                     for step in [inj] + ([inj["then"]] if inj.get("then") else []):
-                        reqs2.append(map_request(d, step["fail"], step["mode"]))
+                        step["fail_extra"] = colliding(calls, step)
+                        if step["fail_extra"]:
+                            ctx.count("interpreted:colliding-invocations")
+                        reqs2.append(map_request(d, step["fail"], step["mode"], step["fail_extra"]))
                         slots.append(step)
             else:
                 desc, out, kw = d
@@ -545,13 +791,22 @@ def run(ctx):
                     ctx.skip("call case refused by the model without failures")
                     continue
                 injs = plan_call(ctx, rng, desc, out, kw, r["calls"])
-                if rr is not None:
+                if rr is not None and rr[0] == "inj":
+                    _, idx, entry = rr
+                    name = r["calls"][idx]
+                    t, m = make_target(name, None, "value", 560 + idx)
+                    injs.insert(0, {"what": "single", "targets": [t], "fail": [m], "out": out, "kw": kw, "entry": entry, "mode": "call", "index": idx,
+                                    "nest_out": [o for f in desc["funcs"] if f["name"] != name for o in f["outputs"]]})
+                elif rr is not None:
                     a, b = rr
                     ta, ma = make_target(r["calls"][a], None, "value", 600 + a)
                     tb, mb = make_target(r["calls"][b], None, "custom", 700 + b)
                     injs.insert(0, {"what": "rerun", "targets": [ta], "fail": [ma], "out": out, "kw": kw, "entry": "call", "mode": "call", "index": a,
                                     "then": {"what": "rerun2", "targets": [tb], "fail": [mb], "out": out, "kw": kw, "entry": "call", "mode": "call", "index": b}})
                 for inj in injs:
+                    if fresh_left > 0 and inj["what"] == "single" and rng.random() < 0.15:
+                        inj["fresh"] = True
+                        fresh_left -= 1
                     for step in [inj] + ([inj["then"]] if inj.get("then") else []):
                         reqs2.append(call_request(desc, out, kw, step["fail"]))
                         slots.append(step)
@@ -565,6 +820,8 @@ def run(ctx):
             for inj, obs in zip(job["injections"], obs_list):
                 judge(ctx, job["kind"], job["desc"], inj, obs)
     finally:
+        if const_env is None:
+            os.environ.pop("VERIF_CONST", None)
         shutil.rmtree(base, ignore_errors=True)
 
 
@@ -574,9 +831,14 @@ def replay(ctx, case):
         inj = case["inj"]
         desc = case["desc"]
         steps = [inj] + ([inj["then"]] if inj.get("then") else [])
-        reqs = [map_request(desc, s["fail"], s["mode"]) if case["kind"] == "map" else call_request(desc, s["out"], s["kw"], s["fail"]) for s in steps]
-        for s, resp in zip(steps, ctx.lean(reqs)):
+        reqs = [map_request(desc, s["fail"], s["mode"], s.get("fail_extra", ())) if case["kind"] == "map" else call_request(desc, s["out"], s["kw"], s["fail"]) for s in steps]
+        if case["kind"] == "map" and any(s.get("resume") for s in steps):
+            reqs.append(map_request(desc, [], "seq"))
+        resps = ctx.lean(reqs)
+        for s, resp in zip(steps, resps):
             s["model"] = resp["r"]
+            if s.get("resume"):
+                s["model_full"] = resps[-1]["r"]["stored"]
         res = run_jobs(ctx, [{"kind": case["kind"], "desc": desc, "injections": [inj], "base": base}], 1)
         print("implementation:", json.dumps(res[0][0], indent=1)[:6000])
         print("model:", json.dumps([s["model"] for s in steps], indent=1)[:6000])
